@@ -427,3 +427,7 @@ def run(ck: Check, repo: Repo) -> None:
     # notice style the builder can write (shared with C10-R6)
     from . import c10
     c10.rule_finder_predicate(ck, repo, "R5")
+    # what building and merging produced must reach the header as it is: one template line per notice, unfiltered (a
+    # `| unique` - case-insensitive in Jinja2 - or a condition in the template loses a holder after the merge) (shared with C07-R2)
+    from . import c07
+    c07.rule_pipeline(ck, repo, folder, "R6")
